@@ -657,15 +657,24 @@ class Engine:
             ta, tb = self.load(a, st), self.load(b, st)
             x = z3.Const(fresh_name('e'), sort_of(a.ty.args[0]))
             if isinstance(op, ast.BitOr):
-                r = z3.Lambda([x], z3.Or(T.Sel(ta, x), T.Sel(tb, x)))
+                body = z3.Or(T.Sel(ta, x), T.Sel(tb, x))
             elif isinstance(op, ast.BitAnd):
-                r = z3.Lambda([x], z3.And(T.Sel(ta, x), T.Sel(tb, x)))
+                body = z3.And(T.Sel(ta, x), T.Sel(tb, x))
             elif isinstance(op, ast.Sub):
-                r = z3.Lambda([x], z3.And(T.Sel(ta, x), z3.Not(T.Sel(tb, x))))
+                body = z3.And(T.Sel(ta, x), z3.Not(T.Sel(tb, x)))
             else:
                 raise Unsupported('set op')
-            return self.new_cell(st, a.ty, r)
+            return self.new_cell(st, a.ty, self.def_set(a.ty, x, body, st))
         raise Unsupported(f'binop {type(op).__name__} on {a.ty!r}, {b.ty!r}')
+
+    def def_set(self, sty, x, body, st):
+        """A set defined by a membership condition: a named constant with its defining axiom (instantiated on
+        membership terms) in code context; a lambda term inside contract expressions / guarded contexts."""
+        if self.in_spec or st.guards or self.contract.get('set_defs') != 'named':
+            return z3.Lambda([x], body)
+        R = z3.Const(fresh_name('set'), sort_of(sty))
+        st.pc.append(z3.ForAll([x], T.Sel(R, x) == body, patterns=[T.Sel(R, x)]))
+        return R
 
     def bitop(self, op, a, b, bits):
         # small non-negative flags: bit-wise via div/mod on `bits` bits
@@ -871,6 +880,13 @@ class Engine:
         if k == 'Dict':
             xe = self.coerce(x, cont.ty.args[0], st)
             return T.Sel(T.dict_dom(cont.ty, self.load(cont, st)), self.as_term(xe, st))
+        if k == 'ODict':
+            lt = ListT(TupleT(*cont.ty.args))
+            xe = self.coerce(x, cont.ty.args[0], st)
+            term = self.load(cont, st)
+            j = z3.Int(fresh_name('j'))
+            return z3.Exists([j], z3.And(0 <= j, j < T.seq_len(lt, term),
+                                         T.tup_get(lt.args[0], T.Sel(T.seq_arr(lt, term), j), 0) == self.as_term(xe, st)))
         if k in ('List', 'Np1'):
             if cont.ty.args[0].kind == 'Bottom':
                 return z3.BoolVal(False)
@@ -963,7 +979,11 @@ class Engine:
             return self.mk_tuple([V(INT, T.mat_n0(obj.ty, term)), V(INT, T.mat_n1(obj.ty, term))], st)
         if k == 'Np1' and name == 'shape':
             return self.mk_tuple([V(INT, self.seq_parts(obj, st)[0])], st)
-        if k in ('List', 'Set', 'Dict', 'Np1', 'Np2', 'Tuple'):
+        if k == 'ODict' and name == 'items_list':
+            # contract-language view of an ordered dict: its items in insertion order
+            lt = ListT(TupleT(*obj.ty.args))
+            return V(lt, self.load(obj, st))
+        if k in ('List', 'Set', 'Dict', 'Np1', 'Np2', 'Tuple', 'ODict'):
             return V(PY, py=('method', obj, name))
         raise Unsupported(f'attribute .{name} on {obj.ty!r}')
 
@@ -1019,6 +1039,19 @@ class Engine:
             idx = self.coerce(idx, INT, st, 'index')
             self.total(st, z3.And(idx.t >= -ln, idx.t < ln), f'index in range: {what}', node)
             return self.unbox(et, T.Sel(arr, self.norm_index(idx.t, ln, st)), st)
+        if k == 'ODict':
+            kt, vt = obj.ty.args
+            lt = ListT(TupleT(kt, vt))
+            key = self.coerce(self.eval(sl, st), kt, st)
+            kterm = self.as_term(key, st)
+            term = self.load(obj, st)
+            ln, arr = T.seq_len(lt, term), T.seq_arr(lt, term)
+            j = z3.Int(fresh_name('j'))
+            present = z3.Exists([j], z3.And(0 <= j, j < ln, T.tup_get(lt.args[0], T.Sel(arr, j), 0) == kterm))
+            self.total(st, present, f'key present: {what}', node)
+            r = z3.Int(fresh_name('oi'))
+            st.pc.append(z3.Implies(present, z3.And(0 <= r, r < ln, T.tup_get(lt.args[0], T.Sel(arr, r), 0) == kterm)))
+            return self.unbox(vt, T.tup_get(lt.args[0], T.Sel(arr, r), 1), st)
         if k == 'Dict':
             kt, vt = obj.ty.args
             key = self.coerce(self.eval(sl, st), kt, st)
